@@ -55,14 +55,14 @@ CAPTURE = Capture()
 class ModelECU(Peer):
     """Line-protocol ECU. `respond(session, req) -> (reply|None, new_session)` is supplied by the check.
 
-    Optional model attributes:  latency (s, every reply is sent that much later),  s3 (s, session falls back to the default
+    Optional model attributes:  start_session (session the ECU is in when the scanner connects),  latency (s, every reply is sent that much later),  s3 (s, session falls back to the default
     session when no request was answered for that long),  down_after(req) -> seconds the ECU is down (silent, then default
     session) after receiving `req`."""
 
     def __init__(self, model: Any) -> None:
         self.model = model
         self.rx = bytearray()
-        self.session = 1
+        self.session = int(getattr(model, "start_session", 1) or 1)  # (a previous tester may have left the ECU in a non-default session)
         self.log: list[tuple[int, bytes]] = []  # (session in which it was received, request)
         self.latency = float(getattr(model, "latency", 0.0) or 0.0)
         self.s3 = getattr(model, "s3", None)
